@@ -693,7 +693,7 @@ def reuse_from_part(part, oracle):
     return reuse_run(f[1], oracle=oracle, nthreads=int(f[4][2:]), gate=(f[3] == "gated"), reset=(f[2] == "reset"))
 
 
-def explore_reuse(res, tier, oracle, unlisted, kind="pool"):
+def explore_reuse(res, tier, oracle, unlisted, kind="pool", deep=True):
     """schedules of `a client leaves abruptly (FIN or RST) while a newcomer connects` inside the exploration window (set-up
     and tear-down run on the default schedule).  deviation-bounded: every non-default scheduling choice, preemptive or
     not, costs 1 (no state cache: each execution is a distinct choice sequence); thorough adds classic preemption
@@ -703,7 +703,9 @@ def explore_reuse(res, tier, oracle, unlisted, kind="pool"):
     for reset, gate, nt in REUSE_VARIANTS:
         if any(unlisted(v[0]) for v in res.violations):
             return
-        b = dev if nt == 1 else 2
+        # the third deviation goes to the one-worker variants (all four for the owner of the scenario, C17; the two gated
+        # ones when another check borrows it)
+        b = dev if (nt == 1 and (deep or gate)) else 2
         ex = explore.ParallelExplorer(reuse_run(kind, oracle=oracle, nthreads=nt, gate=gate, reset=reset), bound=b, use_cache=False,
                                       deviations=True, task_execs=40, warmup_execs=4, max_seconds=120 if tier == "quick" else 1500,
                                       stop_on_violation=unlisted)
@@ -718,11 +720,11 @@ def explore_reuse(res, tier, oracle, unlisted, kind="pool"):
         name = reuse_part(kind, reset, gate, nt, "dev")
         res.add_explorer(name, ex)
         res.bounds[name] = "deviations<=%s" % ex.stats.bound_completed
-    if tier == "thorough":
+    if tier == "thorough" and deep:
         for reset in (False, True):
             if any(unlisted(v[0]) for v in res.violations):
                 return
-            ex = explore.ParallelExplorer(reuse_run(kind, oracle=oracle, nthreads=1, reset=reset), bound=1, max_seconds=1500,
+            ex = explore.ParallelExplorer(reuse_run(kind, oracle=oracle, nthreads=1, reset=reset), bound=1, max_seconds=1200,
                                           stop_on_violation=unlisted)
             ex.explore()
             best = {}
